@@ -119,6 +119,8 @@ class SQLTranslator(ASTTranslator):
             else: throw(NotImplementedError)  # pragma: no cover
         elif tt is QueryType:
             prev_translator = t.translator.deepcopy()
+            # parameter values baked into the embedded query also decide whether this translation can be reused
+            translator.root_translator.fixed_param_values.update(prev_translator.fixed_param_values)
             prev_translator.parent = translator
             prev_translator.injected = True
             if translator.database is not prev_translator.database:
@@ -350,6 +352,7 @@ class SQLTranslator(ASTTranslator):
                     translator.namespace[name] = node.monad = ObjectIterMonad(tableref, entity)
                 elif isinstance(iterable, QueryType):
                     prev_translator = iterable.translator.deepcopy()
+                    translator.root_translator.fixed_param_values.update(prev_translator.fixed_param_values)
                     prev_limit = iterable.limit
                     prev_offset = iterable.offset
                     database = prev_translator.database
